@@ -47,6 +47,7 @@ class Universe:
 
     def node(self, cls, terminal, ops=(), rep=None, **attrs):
         o = Obj(cls, __class__=self.K(cls), _ufl_typecode_=cls, _ufl_is_terminal_=terminal, ufl_operands=tuple(ops), ufl_shape=self.shape, ufl_free_indices=(), ufl_index_dimensions=(), **attrs)
+        o.attrs.setdefault("_hash", None)  # Expr caches its hash lazily: None until somebody hashes the node
         o.attrs["_data"] = tuple(sorted((k, v) for k, v in attrs.items() if isinstance(v, (int, str, tuple, type(None)))))
         o.attrs["_repr"] = rep
         return o
@@ -266,7 +267,26 @@ def check_order(ctx, rep, cmp_expr, parts):
     return n
 
 
-def check_dag_sharing(ctx, rep, cmp_expr):
+def fill_hashes(objs):
+    """the state after every node was hashed once (used as a dict key, put in a set, wrapped by a constructor that
+    hashes its operand): lazily cached hashes are not part of a node's value, so nothing may depend on them"""
+    seen = set()
+
+    def rec(o):
+        if not isinstance(o, Obj) or id(o) in seen or "_ufl_typecode_" not in o.attrs:
+            return
+        seen.add(id(o))
+        for x in o.attrs.get("ufl_operands", ()):
+            rec(x)
+        if "_hash" in o.attrs:
+            o.attrs["_hash"] = hash(exact_key(o))
+
+    for o in objs:
+        rec(o)
+    return len(seen)
+
+
+def check_dag_sharing(ctx, rep, cmp_expr, hashed=False):
     """Generated family: the same operator tree over every assignment of its leaf positions to two leaf
     values, each available as two equal-but-distinct objects.  Sub-objects are therefore shared inside an
     operand and paired with equal, non-identical partners across operands in every possible pattern.  The
@@ -289,6 +309,9 @@ def check_dag_sharing(ctx, rep, cmp_expr):
     for l1, l2, l3 in itertools.product(leaves, repeat=3):
         e = N("Product", False, (N("Product", False, (N("Sin", False, (leaves[l1],)), N("Cos", False, (leaves[l2],)))), N("Exp", False, (leaves[l3],))))
         items.append((f"sin({l1})*cos({l2})*exp({l3})", e, anon_key(e)))
+    state = "every node hashed before" if hashed else "no node hashed yet"
+    if hashed:
+        fill_hashes([e for _, e, _ in items])
     groups = {}
     bad = 0
     n = 0
@@ -300,7 +323,7 @@ def check_dag_sharing(ctx, rep, cmp_expr):
         if (r == 0) != (ka == kb):
             bad += 1
             if bad <= 4:
-                rep.violation("C29-dag", cmp_expr, f"({na}, {nb})", f"cmp_expr({na}, {nb}) = {r}: x*/y* are equal but distinct objects, so the result must be {'0' if ka == kb else 'non-zero'}; with a tie between different expressions a+b and b+a keep their input order", witness={"a": na, "b": nb})
+                rep.violation("C29-dag", cmp_expr, f"({na}, {nb}) [{state}]", f"cmp_expr({na}, {nb}) = {r} [{state}]: x*/y* are equal but distinct objects, so the result must be {'0' if ka == kb else 'non-zero'}; with a tie between different expressions a+b and b+a keep their input order", witness={"a": na, "b": nb})
             continue
         key = (ka, kb) if repr(ka) <= repr(kb) else (kb, ka)
         val = r if repr(ka) <= repr(kb) else -r
@@ -309,7 +332,7 @@ def check_dag_sharing(ctx, rep, cmp_expr):
             if bad <= 4:
                 rep.violation("C29-dag", cmp_expr, f"({na}, {nb})", f"cmp_expr({na}, {nb}) = {r} but another object-sharing variant of the same two expressions compares the other way", witness={"a": na, "b": nb})
     if not bad:
-        rep.ok("C29-dag", cmp_expr, f"{n} comparisons of {len(items)} object-sharing variants of 8 structures: sign depends on the structure only")
+        rep.ok("C29-dag", cmp_expr, f"{n} comparisons of {len(items)} object-sharing variants of 8 structures ({state}): sign depends on the structure only")
     return n
 
 
@@ -318,6 +341,7 @@ def run(ctx) -> Report:
     prog = ctx.prog
     cmp_expr = prog.get_function(SORTING, "cmp_expr")
     check_dag_sharing(ctx, rep, cmp_expr)
+    check_dag_sharing(ctx, rep, cmp_expr, hashed=True)
     ip = make_interp(ctx, [])
     table = ip.module_globals[SORTING].get("_terminal_cmps")
     if not isinstance(table, dict) or not table:
